@@ -203,8 +203,14 @@ func eventsQuery(bc *blockchain.Blockchain, addrs []felt.Address, keys [][]felt.
 
 // observeEvents runs a fixed family of event queries over [0, height].
 func observeEvents(o Obs, bc *blockchain.Blockchain, u *Universe, height uint64, tag string) {
-	o.put(tag+"Events(all,chunk=1000)", eventsQuery(bc, nil, nil, 0, height, 1000))
-	o.put(tag+"Events(all,chunk=2)", eventsQuery(bc, nil, nil, 0, height, 2))
+	// unfiltered queries read every block of the range: on long chains they start at ObsFrom (the filtered
+	// ones, which go through the aggregated filters, always start at 0)
+	lo := uint64(0)
+	if u.ObsFrom > 0 && u.ObsFrom <= height {
+		lo = u.ObsFrom
+	}
+	o.put(fmt.Sprintf("%sEvents(all,[%d,h],chunk=1000)", tag, lo), eventsQuery(bc, nil, nil, lo, height, 1000))
+	o.put(fmt.Sprintf("%sEvents(all,[%d,h],chunk=2)", tag, lo), eventsQuery(bc, nil, nil, lo, height, 2))
 	for i := range u.Addrs {
 		a := felt.Address(u.Addrs[i])
 		o.put(fmt.Sprintf("%sEvents(from=%s)", tag, &u.Addrs[i]), eventsQuery(bc, []felt.Address{a}, nil, 0, height, 1000))
@@ -213,8 +219,8 @@ func observeEvents(o Obs, bc *blockchain.Blockchain, u *Universe, height uint64,
 		k := lib.EventKey(i)
 		o.put(fmt.Sprintf("%sEvents(key0=%s)", tag, &k), eventsQuery(bc, nil, [][]felt.Felt{{k}}, 0, height, 3))
 	}
-	if height > 1 {
-		o.put(tag+"Events(all,[1,h-1])", eventsQuery(bc, nil, nil, 1, height-1, 1000))
+	if height > 1 && lo+1 <= height-1 {
+		o.put(fmt.Sprintf("%sEvents(all,[%d,h-1])", tag, lo+1), eventsQuery(bc, nil, nil, lo+1, height-1, 1000))
 	}
 }
 
